@@ -116,7 +116,18 @@ impl Out {
 			j.push_str(&format!("\n    \"{}\"", json_escape(s)));
 		}
 		j.push_str("\n  ],\n  \"failures\": [");
-		for (i, fl) in self.failures.iter().take(200).enumerate() {
+		// At most 60 failures per class are written out (shortest first), so
+		// that an unlisted failure is never hidden behind known findings.
+		let mut by_class: BTreeMap<&str, Vec<&Failure>> = BTreeMap::new();
+		for fl in &self.failures {
+			by_class.entry(fl.class.as_str()).or_default().push(fl);
+		}
+		let mut shown: Vec<&Failure> = vec![];
+		for (_, v) in by_class.iter_mut() {
+			v.sort_by_key(|f| f.detail.len());
+			shown.extend(v.iter().take(60));
+		}
+		for (i, fl) in shown.iter().enumerate() {
 			if i > 0 {
 				j.push(',');
 			}
